@@ -20,7 +20,9 @@ RULE = ("MC: exhaustive TLC runs of LiteClient (one action per critical section 
         "Fixed scenarios besides the TLC scripts: 16 callers with 48 KiB queries on ONE connection (hooked and hook-free; Connection.mu "
         "must be exclusive between send.try and the result, the server reports a client stream it cannot decrypt), a refusal of every "
         "connection attempt for > 10 s after a close followed by the server being back (a dial may fail only when the server closed that "
-        "attempt), a soak, and (thorough) the 10 s silence expiry; a call still inside Request after deadline + slack + 1 s is reported, not awaited. "
+        "attempt), authenticated connections on which the server repeats tcp.authentificationNonce and sends other auth constructors, every "
+        "answer written in two TCP pieces with a pause (cut inside the size prefix after 1, 2, 3 bytes / nonce / payload / checksum), a soak, "
+        "and (thorough) the 10 s silence expiry; a call still inside Request after deadline + slack + 1 s is reported, not awaited. "
         "distinct = executions whose trace was accepted + hook-free executions that passed the harness assertions.")
 
 def _slack():
@@ -187,6 +189,19 @@ def finalize(ck, plan, vecs, next_id):
         sc = {"id": sid, "plan": name, "ncalls": nc, "nconns": nk, "timeout_ms": long_to if sid % 3 and nc <= 8 else ck.rng.choice([250, 400]),
               "steps": out, "bg_callers": 0 if rnd < 0.6 else ck.rng.choice([1, 2, 4]), "bg_calls": ck.rng.choice([1, 2, 3]),
               "followup": 1, "mode": "traced", "jitter": ck.rng.random() < 0.7, "cls": "+".join(sorted(t)) or "plain"}
+        if sid % 4 == 1:
+            # transport-level refinement of "delays": frames written in two pieces, the cut cycling through size prefix / nonce / payload / checksum
+            sc["split_every"], sc["split_ms"] = ck.rng.choice([1, 2]), ck.rng.choice([20, 50, 120])
+            sc["cls"] += "+split"
+        if sid % 5 == 2:
+            # authenticated connections; unsolicited packets become repeated tcp.authentificationNonce / other auth constructors
+            sc["auth"] = True
+            for st in sc["steps"]:
+                if st["a"] in ("pong", "other") and ck.rng.random() < 0.6:
+                    st["a"] = "authnonce"
+                elif st["a"] == "other":
+                    st["m"] = ck.rng.choice([0, 1, 2])
+            sc["cls"] += "+auth"
         if "late" in t and sid % 2 == 0:
             # hold the callers between their timeout and unregisterCallback: the held-back answer finds the entry still there
             sc["hold_timeout_us"] = 60000
@@ -250,6 +265,11 @@ def harness_findings(x):
     r = x.res
     if r is None:
         return out
+    if r.get("setup_failed"):
+        out.append(("C12:connection-setup-fails", "the client could not establish its initial connections to a conforming server: " + r["setup_failed"][:300]))
+        return out
+    if r.get("auth_bad"):
+        out.append(("C12:auth-signature-invalid", "%d tcp.authentificationComplete packet(s) whose signature does not verify" % r["auth_bad"]))
     if r.get("stream_corrupt"):
         out.append(("C12:client-stream-corrupt", "the server could not decrypt / verify %d frame(s) of the client's byte stream (not a sequence of valid frames)" % r["stream_corrupt"]))
     if r.get("hang"):
@@ -298,6 +318,10 @@ def trace_key(rj, res, script=None):
                 t0.pop(ev["i"], None)
         if any(e["t"] > t + tmo + SLACK_MS for t in t0.values()):
             return "C12:call-outlives-deadline"
+    if k == "pkt.exit":
+        return "C12:reader-exits-on-open-connection"     # the packet goroutine gave up although nobody closed the socket
+    if k == "conn.up.again":
+        return "C12:auth-repeated-after-connected"
     if k == "send.try":
         return "C12:send-not-exclusive"          # a second sender entered Send's critical section of Connection.mu
     if k == "rc.dialfail":
@@ -441,6 +465,21 @@ def run(ck):
     for j in range(1 if not ck.thorough else 2):
         bare.append({"id": 220000 + j, "plan": "outage", "ncalls": 0, "nconns": 1 + j, "timeout_ms": 300, "steps": [{"a": "outage", "i": 0, "k": 1, "of": 0, "ms": 12500 + 1500 * j}],
                      "bg_callers": 1, "bg_calls": 4, "followup": 2, "mode": "traced", "jitter": False, "cls": "outage"})
+    # authenticated connections: the server repeats tcp.authentificationNonce (and sends other auth constructors) after the connection is up,
+    # before and after a reconnect; ordinary calls go on around it
+    for j in range(1 if not ck.thorough else 3):
+        st = [{"a": "recv", "i": 1}, {"a": "recv", "i": 2}, {"a": "authnonce", "of": 1}, {"a": "ans", "i": 1, "cut": 1 + j, "ms": 60},
+              {"a": "other", "of": 2, "m": 1}, {"a": "authnonce", "of": 2}, {"a": "ans", "i": 2}, {"a": "other", "k": 1, "m": 2}, {"a": "recv", "i": 3}, {"a": "ans", "i": 3},
+              {"a": "recv", "i": 4}, {"a": "drop", "of": 4}, {"a": "pause", "ms": 300}] + [{"a": "authnonce", "k": k} for k in range(1, 3 + j)]
+        for x in st:
+            for f in ("i", "k", "of"):
+                x.setdefault(f, 0)
+        bare.append({"id": 230000 + j, "plan": "auth", "ncalls": 4, "nconns": 2 + j, "timeout_ms": 2 * SLACK_MS + 300, "steps": st, "auth": True,
+                     "bg_callers": 2, "bg_calls": 3, "followup": 2, "mode": "traced", "jitter": j > 0, "cls": "auth"})
+    # every answer written in two pieces with a pause (cut cycling through the regions of a frame): every call still gets its answer in time
+    for j, mode in enumerate(["traced", "bare"] + (["traced"] if ck.thorough else [])):
+        bare.append({"id": 240000 + j, "plan": "split", "ncalls": 0, "nconns": 1 + j % 2, "timeout_ms": 2 * SLACK_MS + 300, "steps": [], "bg_callers": 6, "bg_calls": 4,
+                     "followup": 1, "mode": mode, "jitter": False, "cls": "split", "split_every": 1, "split_ms": [50, 150, 20][j]})
     silence = []
     if ck.thorough:
         for j in range(2):
@@ -449,7 +488,7 @@ def run(ck):
 
     # ---- S->C: execute
     par = 12 if not ck.thorough else 16
-    todo = sorted(scripts + bare + silence, key=lambda sc: 0 if sc["plan"] in ("outage", "silence") else 1 if sc["plan"] in ("burst", "soak") else 2)
+    todo = sorted(scripts + bare + silence, key=lambda sc: 0 if sc["plan"] in ("outage", "silence") else 1 if sc["plan"] in ("burst", "soak", "auth", "split") else 2)
     t_ex = time.time()
     execs = vlib.parallel(lambda s: execute(ck, binary, s, "x"), todo, n=par)
     ck.extra["exec_wall_s"] = round(time.time() - t_ex, 1)
@@ -521,15 +560,15 @@ def run(ck):
     ck.extra["calls_total"] = sum((x.res or {}).get("ncalls", 0) for x in execs)
     ck.extra["answers_total"] = sum((x.res or {}).get("answers", 0) for x in execs)
     ck.extra["errors_total"] = sum((x.res or {}).get("errors", 0) for x in execs)
-    rec = [x.res["recover_ms"] for x in execs if x.res and x.res["drops"] and x.res["recovered"]]
+    rec = [x.res["recover_ms"] for x in execs if x.res and x.res.get("drops") and x.res.get("recovered")]
     if rec:
         ck.extra["recover_ms_max"] = max(rec)
         ck.extra["recover_ms_median"] = sorted(rec)[len(rec) // 2]
     sk = by_id.get(200000)
-    if sk and sk.res:
+    if sk and sk.res and "census0" in sk.res:
         ck.extra["soak"] = {"calls": sk.res["ncalls"], "answers": sk.res["answers"], "census_before": sk.res["census0"], "census_after": sk.res["census1"]}
     for x in execs:
-        if x.script.get("silence_ms") and x.res:
+        if x.script.get("silence_ms") and x.res and "pkt_extra" in x.res:
             ck.notes.append("silence scenario %d: 10 s without a packet, reader held %d ms at its silence hook, one packet sent %d ms after expiry: "
                             "packet goroutines left behind = %d (%s); trace %s" % (x.script["id"], x.script["hold_us"] // 1000, x.script["hit_us"] // 1000,
                             x.res["pkt_extra"], x.res["stuck"][:120], "accepted" if not verdicts.get(x.script["id"]) else "rejected"))
@@ -540,7 +579,7 @@ def run(ck):
 
     # ---- canaries on one accepted execution
     def canaries():
-        good = [x for x in traced if not verdicts.get(x.script["id"]) and x.res and x.res["answers"] >= 2 and not x.script.get("silence_ms")]
+        good = [x for x in traced if not verdicts.get(x.script["id"]) and x.res and x.res.get("answers", 0) >= 2 and not x.script.get("silence_ms")]
         if not good:
             raise Infra("no accepted execution with two answered calls to build canaries from")
         x = sorted(good, key=lambda x: x.res["trace_events"])[0]
